@@ -31,7 +31,9 @@ META = {
                   "oldnew_checked": 15000},
         "thorough": {"evaluations": 4000000, "notifying_assignments": 1500000,
                      "silent_assignments": 400000, "rejected_assignments": 400000, "reads": 500000,
-                     "raising_handler_calls": 400000, "oldnew_checked": 4000000},
+                     "raising_handler_calls": 400000, "oldnew_checked": 4000000,
+                     "unread_first_assignments": 100000, "quiet_sets_ok": 250000,
+                     "quiet_sets_rejected": 50000},
     },
     "assumptions": [
         "value pools avoid objects whose == and != are mutually inconsistent (the statement's "
@@ -85,6 +87,11 @@ class X(HasTraits):
     pass
 
 
+SHARED_OBJ = X()
+SHARED_NAN = float("nan")
+SHARED_BADEQ = BadEq()
+
+
 KINDS = {
     "Any": lambda m: Any(comparison_mode=m),
     "Int": lambda m: Int(comparison_mode=m),
@@ -105,7 +112,27 @@ KINDS = {
     "Array": lambda m: Array(comparison_mode=m),
     "Dyn": lambda m: Int(comparison_mode=m),
     "DynList": lambda m: List(Int, comparison_mode=m),
+    # dynamic defaults returning a SHARED pre-existing object
+    "DynNone": lambda m: Any(comparison_mode=m),
+    "DynObj": lambda m: Any(comparison_mode=m),
+    "DynNan": lambda m: Any(comparison_mode=m),
+    "DynBadEq": lambda m: Any(comparison_mode=m),
+    "FactoryObj": lambda m: Any(factory=_shared_factory, comparison_mode=m),
 }
+
+
+def _shared_factory():
+    return SHARED_OBJ
+
+
+# value readable before anything was read or assigned, for kinds where the harness knows it
+# without reading (so that a history may START with an assignment)
+KNOWN_DEFAULT = {
+    "Any": None, "Int": 0, "Str": "", "Bool": False, "Inst": None, "Either": None, "Dyn": 5,
+    "DynNone": None, "DynObj": SHARED_OBJ, "DynNan": SHARED_NAN, "DynBadEq": SHARED_BADEQ,
+    "FactoryObj": SHARED_OBJ,
+}
+DYN_DEFAULTS = {"DynNone": None, "DynObj": SHARED_OBJ, "DynNan": SHARED_NAN, "DynBadEq": SHARED_BADEQ}
 
 
 def pool(kind):
@@ -138,6 +165,11 @@ def pool(kind):
                   "bad", np.array([[1, 2], [3, 4]])],
         "Dyn": [5, 5, 6, "bad"],
         "DynList": [[7], [7], [8], "bad"],
+        "DynNone": [None, None, 1, x1, None],
+        "DynObj": [SHARED_OBJ, SHARED_OBJ, x1, None, SHARED_OBJ],
+        "DynNan": [SHARED_NAN, SHARED_NAN, nan1, 1.0, SHARED_NAN],
+        "DynBadEq": [SHARED_BADEQ, SHARED_BADEQ, BadEq(), 1, SHARED_BADEQ],
+        "FactoryObj": [SHARED_OBJ, SHARED_OBJ, x1, None, SHARED_OBJ],
     }[kind]
 
 
@@ -200,6 +232,8 @@ def run_history(ctx, h, legacy_errs, obs_errs):
         ns["_x_default"] = lambda self: 5
     if kind == "DynList":
         ns["_x_default"] = lambda self: [7]
+    if kind in DYN_DEFAULTS:
+        ns["_x_default"] = lambda self, _d=DYN_DEFAULTS[kind]: _d
 
     def bound_handler(self, obj, name, old, new):
         rec("otcm", old, new)
@@ -226,12 +260,40 @@ def run_history(ctx, h, legacy_errs, obs_errs):
                       {"config": cfg, "history": list(trace)})
         return True
 
+    # the attribute has been neither read nor assigned yet: for kinds whose default the harness
+    # knows, the first assignment may come before any read
+    unread = kind in KNOWN_DEFAULT and rng.random() < 0.6
     for step in range(12):
         del LOG[:], legacy_errs[:], obs_errs[:]
-        opk = rng.choice(["set", "set", "set", "read"])
+        opk = rng.choice(["set", "set", "set", "read", "set", "setq"])
+        if unread and step == 0:
+            opk = "set"
+            ctx.count("unread_first_assignments")
+        if opk == "setq":
+            # quiet set (documented not to notify); a rejected one must not disturb later ops
+            v = rng.choice(P)
+            trace.append("setq " + short(v, 30))
+            before = Undefined if is_event else o.x
+            unread = False
+            del LOG[:]
+            try:
+                o.trait_setq(x=v)
+                okq = True
+            except TraitError:
+                okq = False
+            except Exception as e:
+                return viol("quiet-set-raised:" + type(e).__name__, "trait_setq let %r escape" % (e,))
+            ctx.ev()
+            ctx.count("quiet_sets_ok" if okq else "quiet_sets_rejected")
+            if LOG:
+                return viol("quiet-set-notified", "trait_setq called %r" % [e[0] for e in LOG])
+            if not okq and not is_event and o.x is not before:
+                return viol("rejected-changed-value", "value changed by a rejected quiet set")
+            continue
         if opk == "read":
             if is_event:
                 continue
+            unread = False
             trace.append("read")
             v0 = o.x
             ctx.ev()
@@ -242,8 +304,12 @@ def run_history(ctx, h, legacy_errs, obs_errs):
                 return viol("read-not-stable", "two consecutive reads returned different objects")
             continue
         v = rng.choice(P)
-        trace.append("set " + short(v, 30))
-        before = Undefined if is_event else o.x
+        trace.append(("set-unread " if unread else "set ") + short(v, 30))
+        if unread:
+            before = KNOWN_DEFAULT[kind]
+            unread = False
+        else:
+            before = Undefined if is_event else o.x
         if LOG:
             return viol("read-notified", "reading the value before an assignment called handlers")
         try:
